@@ -310,7 +310,8 @@ impl Check for C18 {
         for scen in 0..SCENARIOS.len() as i64 {
             for fb in [0i64, 1] {
                 if g.mine(idx) {
-                    emit(Case::with("dfs", vec![], &[scen, if g.tier == Tier::Quick { 20_000 } else { 1_000_000 }, fb]));
+                    let budget = (if g.tier == Tier::Quick { 20_000.0 } else { 1_000_000.0 } * g.scale.min(1.0)) as i64;
+                    emit(Case::with("dfs", vec![], &[scen, budget.max(100), fb]));
                 }
                 idx += 1;
             }
